@@ -1,8 +1,9 @@
 (** * C20 — covariance kernels (RBF, rational quadratic), scalar and matrix form.  Statements only.
     Carrier [RO] unless the theorem is stated for every carrier.  Claim: PARTIAL — positive semi-definiteness is
-    proved for every 2-point Gram matrix only; general n is explored by the oracle (Jacobi eigenvalues). *)
+    proved for every finite RBF Gram matrix, and for every 2-point rational-quadratic Gram matrix only (general n for RQ is
+    explored by the oracle: Jacobi eigenvalues). *)
 From Coq Require Import Reals List ZArith.
-From Compute Require Import Base.Ops Base.ListMat Model.Kernels Proofs.C20.
+From Compute Require Import Base.Ops Base.ListMat Model.Kernels Proofs.C20 Proofs.C20_psd.
 Import ListNotations.
 Open Scope R_scope.
 
@@ -72,6 +73,15 @@ Theorem C20_rq_gram_2x2_psd_partial :
   forall var alpha ls x y c1 c2 : R, 0 < var -> 0 < alpha -> 0 < ls ->
     0 <= c1 * c1 * rq RO var alpha ls x x + 2 * c1 * c2 * rq RO var alpha ls x y + c2 * c2 * rq RO var alpha ls y y.
 Proof. exact rq_gram_2x2_psd. Qed.
+
+(** positive semi-definiteness of EVERY finite RBF Gram matrix: for every list of (point, coefficient) pairs the quadratic form
+    sum_i sum_j c_i c_j k(x_i, x_j) is non-negative (feature-map argument: exp(xy/l^2) is a limit of non-negative combinations of
+    rank-one kernels; Proofs/C20_psd.v).  The rational-quadratic kernel has this only for two points (above). *)
+Theorem C20_rbf_gram_psd :
+  forall (var ls : R) (pts : list (R * R)), 0 < var -> 0 < ls ->
+    0 <= fold_right Rplus 0
+           (map (fun p => fold_right Rplus 0 (map (fun q => snd p * snd q * rbf RO var ls (fst p) (fst q)) pts)) pts).
+Proof. exact rbf_gram_psd. Qed.
 
 (** constructors accept exactly positive parameters *)
 Theorem C20_rbf_new_spec :
